@@ -1,4 +1,4 @@
-SPECIFICATION GSpec
+SPECIFICATION SSpec
 CONSTANTS
   PfxNs <- T_PfxNs
   CanonPfx <- T_CanonPfx
@@ -15,23 +15,18 @@ CONSTANTS
   BodyUses <- T_BodyUses
   BodyPre <- T_BodyPre
   WinName <- T_WinName
-  Dev <- DevAsIs
-  MaxOv = 3
-  Bases <- BasesT
+  Dev <- DevIdeal
+  MaxOv = 0
+  Bases <- BasesQ
   PoolJ <- PoolJ_Q
   PoolD <- PoolD_Q
-  Dumps <- DumpsT
+  Dumps <- DumpsQ
   Parts = 1
   Part = 0
   TitleU <- TitlesGood
-  MaxPages = 1
-  Wins <- WinNo
-INVARIANT P1_FinalIsOverlay
-INVARIANT P1_NsAgrees
-INVARIANT P2_BackupBeforeOverrides
-INVARIANT P2_RestoreUndoesOverrides
-INVARIANT P3_ProbeWritesNothing
-INVARIANT P3_ProbeIsRight
-INVARIANT P3_OtherMarksKept
-INVARIANT GenInv
+  MaxPages = 2
+  Wins <- WinBoth
+INVARIANT P4_Injective
+INVARIANT P4_ComesBack
+INVARIANT P4_NothingHidden
 CHECK_DEADLOCK FALSE
